@@ -248,7 +248,8 @@ def run_shard(spec, rec):
                     rec.violation("compatible-restricted-raised", {"target": target, "unit": u, "err": repr(e)},
                                   workload="members", target=target)
                     continue
-                got = {g for g in got if not g.startswith("delta_")}
+                # the delta_ companions of offset units are generated by the registry and belong to no group
+                # (not even root), so a restricted listing never shows them: nothing is filtered here
                 if got != want:
                     rec.violation("compatible-restricted", {"target": target, "unit": u,
                                                             "missing": sorted(want - got)[:6],
